@@ -87,3 +87,15 @@ PROPS["C16"] = dict(
     harness=["impl"],
     rule="every plan (interleaving of start-until-parked / release-until-returned events) for 2 and 3 workers, for the pipe's template systems and the producer's sampling systems, forced on the real code through the public factory callbacks; exhaustive",
 )
+
+PROPS["C19"] = dict(
+    modules=["Proofs.C19", "Proofs.Findings.C19"],
+    theorems=["Goflow.C19.inv_init", "Goflow.C19.inv_step", "Goflow.C19.inv_run", "Goflow.C19.no_closed_write",
+              "Goflow.C19.each_once", "Goflow.C19.units_in_one_file", "Goflow.Findings.C19.closed_write_possible"],
+    generators=[dict(name="C19", quick=12, thorough=300, subseeds=4)],
+    harness=["impl"],
+    count_all=True,
+    watchdog_ms=30000,
+    assumptions=["a single write(2) on an O_APPEND descriptor is atomic with respect to other writers of the same file",
+                 "fmt.Fprint issues one Write call for its whole argument"],
+)
